@@ -5,6 +5,9 @@ import (
 	"fmt"
 	"runtime/debug"
 	"strings"
+	"testing"
+	"testing/synctest"
+	"time"
 
 	"verif/h/pt"
 )
@@ -23,6 +26,53 @@ type Machine interface {
 type Factory func(params json.RawMessage) Machine
 
 var registry = map[string]Factory{}
+
+// bubbleChecks lists the registry entries whose machines must live inside a testing/synctest
+// bubble (whole-system checks); every execution (replay + one step + closure) gets its own bubble.
+var bubbleChecks = map[string]bool{}
+
+// curT is the *testing.T of the worker entry point (needed to open bubbles).
+var curT *testing.T
+
+// inEnv runs f directly, or inside a fresh bubble for whole-system machines.
+func inEnv(check string, f func()) {
+	if !bubbleChecks[check] {
+		f()
+		return
+	}
+	synctest.Test(curT, func(t *testing.T) { f() })
+}
+
+// exitWith reports a violation that leaves goroutines blocked for ever (a request that never
+// returns): the bubble can no longer be closed, so the worker journals the violation and exits;
+// the driver records it for the history and successor in flight and re-runs the rest.
+var exitWith func(v *pt.Violation)
+
+// callWithDeadline runs f in a goroutine of its own and waits for it under the bubble's virtual
+// clock: if f has not returned after 60 virtual seconds with every goroutine durably blocked, it
+// never will. Returns false on a hang.
+func callWithDeadline(f func()) bool {
+	done := make(chan struct{})
+	go func() {
+		defer close(done)
+		f()
+	}()
+	select {
+	case <-done:
+		return true
+	case <-time.After(60 * time.Second):
+		return false
+	}
+}
+
+// shutdowner is implemented by machines that own goroutines.
+type shutdowner interface{ Shutdown() }
+
+func shutdown(m Machine) {
+	if s, ok := m.(shutdowner); ok {
+		s.Shutdown()
+	}
+}
 
 func viol(sig, format string, args ...interface{}) *pt.Violation {
 	return &pt.Violation{Sig: sig, Msg: fmt.Sprintf(format, args...)}
@@ -75,30 +125,55 @@ func replay(f Factory, params json.RawMessage, h []pt.Action) (Machine, *pt.Viol
 	return m, nil
 }
 
-// expandItem computes all successors of the state reached by h.
-func expandItem(f Factory, params json.RawMessage, h []pt.Action, wantKey string) ([]pt.Succ, error) {
-	base, v := replay(f, params, h)
-	if v != nil {
-		return nil, fmt.Errorf("replay of an accepted history violated: %s: %s", v.Sig, v.Msg)
-	}
-	if wantKey != "" {
-		if k, _ := base.Key(); k != wantKey {
-			return nil, fmt.Errorf("nondeterminism: replay of %v gave key %s, expected %s", h, k, wantKey)
-		}
-	}
-	acts := base.Enabled()
-	out := make([]pt.Succ, 0, len(acts))
-	for _, a := range acts {
-		m, v := replay(f, params, h)
+// expandItem computes all successors of the state reached by h. journal(k) is called before the
+// k-th successor is executed (a dead worker then names the action in flight); skip lists successor
+// indices known to kill the worker.
+func expandItem(check string, f Factory, params json.RawMessage, h []pt.Action, wantKey string, journal func(k int, a pt.Action), skip map[int]bool) ([]pt.Succ, error) {
+	var acts []pt.Action
+	var err error
+	inEnv(check, func() {
+		base, v := replay(f, params, h)
+		defer shutdown(base)
 		if v != nil {
-			return nil, fmt.Errorf("replay diverged: %s", v.Msg)
+			err = fmt.Errorf("replay of an accepted history violated: %s: %s", v.Sig, v.Msg)
+			return
+		}
+		if wantKey != "" {
+			if k, _ := base.Key(); k != wantKey {
+				err = fmt.Errorf("nondeterminism: replay of %v gave key %s, expected %s", h, k, wantKey)
+				return
+			}
+		}
+		acts = base.Enabled()
+	})
+	if err != nil {
+		return nil, err
+	}
+	out := make([]pt.Succ, 0, len(acts))
+	for k, a := range acts {
+		if skip[k] {
+			continue
+		}
+		if journal != nil {
+			journal(k, a)
 		}
 		s := pt.Succ{A: a, Evals: 1}
-		s.Viol = safeApply(m, a)
-		if s.Viol == nil {
-			s.Key, s.Nontrivial = m.Key()
-			s.Outcome = m.Outcome()
-			s.Viol = safeClose(m)
+		inEnv(check, func() {
+			m, v := replay(f, params, h)
+			defer shutdown(m)
+			if v != nil {
+				err = fmt.Errorf("replay diverged: %s", v.Msg)
+				return
+			}
+			s.Viol = safeApply(m, a)
+			if s.Viol == nil {
+				s.Key, s.Nontrivial = m.Key()
+				s.Outcome = m.Outcome()
+				s.Viol = safeClose(m)
+			}
+		})
+		if err != nil {
+			return nil, err
 		}
 		if s.Viol != nil {
 			s.Terminal = true
